@@ -714,6 +714,82 @@ func applyRetain(p *Prog, r *Report, rule string, short, recv, method string, sp
 			return true
 		})
 	}
+	// … or is written with the library: X.F = slices.DeleteFunc(slices.Clone(X.F), pred) — kept ⇔ ¬pred. (Without the
+	// clone the routine works in place: that is escapedListsImmutable's / noStrayCompaction's business.)
+	if fd, pk := p.FuncDecl(short, recv, method); fd != nil && fd.Body != nil {
+		fname := spec.Field[strings.Index(spec.Field, ".")+1:]
+		ast.Inspect(fd.Body, func(nd ast.Node) bool {
+			as, ok := nd.(*ast.AssignStmt)
+			if !ok || len(as.Lhs) != 1 || len(as.Rhs) != 1 {
+				return true
+			}
+			switch lhs := as.Lhs[0].(type) {
+			case *ast.SelectorExpr:
+				if lhs.Sel.Name != fname {
+					return true
+				}
+			case *ast.Ident:
+				// a local that is stored into the field afterwards
+				lo := pk.TypesInfo.Defs[lhs]
+				if lo == nil {
+					lo = pk.TypesInfo.Uses[lhs]
+				}
+				stored := false
+				ast.Inspect(fd.Body, func(n2 ast.Node) bool {
+					a2, ok := n2.(*ast.AssignStmt)
+					if !ok || len(a2.Lhs) != 1 || len(a2.Rhs) != 1 {
+						return true
+					}
+					if s2, ok := a2.Lhs[0].(*ast.SelectorExpr); ok && s2.Sel.Name == fname {
+						if id, ok := ast.Unparen(a2.Rhs[0]).(*ast.Ident); ok && lo != nil && pk.TypesInfo.Uses[id] == lo {
+							stored = true
+						}
+					}
+					return true
+				})
+				if !stored {
+					return true
+				}
+			default:
+				return true
+			}
+			call, ok := ast.Unparen(as.Rhs[0]).(*ast.CallExpr)
+			if !ok || len(call.Args) != 2 {
+				return true
+			}
+			o := calleeObj(pk.TypesInfo, call)
+			if o == nil || o.Pkg() == nil || o.Pkg().Path() != "slices" || o.Name() != "DeleteFunc" {
+				return true
+			}
+			inner, ok := ast.Unparen(call.Args[0]).(*ast.CallExpr)
+			if !ok || len(inner.Args) != 1 {
+				return true
+			}
+			if io := calleeObj(pk.TypesInfo, inner); io == nil || io.Pkg() == nil || io.Pkg().Path() != "slices" || io.Name() != "Clone" {
+				return true
+			}
+			src, ok := ast.Unparen(inner.Args[0]).(*ast.SelectorExpr)
+			if !ok || src.Sel.Name != fname {
+				return true
+			}
+			ex := &retainExtractor{fd: fd, pk: pk, info: pk.TypesInfo, alias: map[types.Object]ast.Expr{}}
+			params, _, _, ret := ex.resolvePredicate(call.Args[1], 0)
+			rl := retainLoop{Fn: short + "." + method, Field: spec.Field, Pos: as.Pos(), Source: types.ExprString(src), SourceField: spec.Field}
+			if ret == nil || params == nil || len(params.List) != 1 || len(params.List[0].Names) != 1 {
+				rl.Shape = "undecided: the predicate handed to slices.DeleteFunc is not a function with a single 'return <condition>'"
+			} else {
+				ex.loopVar = pk.TypesInfo.Defs[params.List[0].Names[0]]
+				drop := ex.cond(ret)
+				rl.Keep = &bexpr{Op: "not", Kids: []*bexpr{drop}}
+				rl.Atoms = ex.atoms
+				if len(ex.bad) > 0 {
+					rl.Shape = "undecided: " + strings.Join(ex.bad, "; ")
+				}
+			}
+			loops = append(loops, rl)
+			return true
+		})
+	}
 	// … or in an extracted helper that stores the rebuilt list itself ("r.dropEntity(entity)")
 	if fd, pk := p.FuncDecl(short, recv, method); fd != nil && fd.Body != nil {
 		seenHelper := map[types.Object]bool{}
